@@ -458,7 +458,9 @@ fn sched_hook(name: &'static str, seq: i64) {
     if let Some(r) = ALLOC_LOG.lock().unwrap().as_ref() { r.rec(json!({"t": "a", "w": w, "seq": seq})); }
     if w > 0 && HOLD_FWD[w - 1].fetch_sub(1, Ordering::SeqCst) > 0 && RELEASE.load(Ordering::SeqCst) == 0 {
         // hold this forwarder between its allocation and its write until the session thread has written
-        // a message (which then carries a larger number and is earlier on the wire)
+        // a message (which would then carry a larger number and be earlier on the wire). Since the repair the
+        // forwarder holds the transport lock here, the session cannot write and the hold runs into its
+        // time limit: the forced schedule no longer reorders (if it does, the oracle reports it)
         let base = SESSION_WRITES.load(Ordering::SeqCst);
         let t0 = Instant::now();
         while SESSION_WRITES.load(Ordering::SeqCst) == base && RELEASE.load(Ordering::SeqCst) == 0 && t0.elapsed() < Duration::from_millis(1500) {
